@@ -310,6 +310,28 @@ def r10_map_err(text, count=None):
     return text, k
 
 
+def r10_result_map_chain(text, count=None):
+    """E.map(|p| B).map_err(|q| C)  ->  (match E { Ok(p) => Ok(B), Err(q) => Err(C) })  for closure bodies without nested closures;
+    `_` parameters get fresh names (Verus rejects `_` closure parameters and learns nothing from unannotated closures)."""
+    k = 0
+    while True:
+        m = mask(text)
+        mm = re.search(r"\.\s*map\(\s*\|\s*(\w+)\s*\|\s*([^|]*?)\)\s*\.\s*map_err\(\s*\|\s*(\w+)\s*\|\s*([^|]*?)\)", m)
+        if not mm:
+            break
+        s0 = _receiver_start(m, mm.start())
+        recv = text[s0:mm.start()]
+        p1 = "vx_p%d" % k if mm.group(1) == "_" else mm.group(1)
+        p2 = "vx_q%d" % k if mm.group(3) == "_" else mm.group(3)
+        b1 = text[mm.start(2):mm.end(2)].strip()
+        b2 = text[mm.start(4):mm.end(4)].strip()
+        text = text[:s0] + "(match %s { Ok(%s) => Ok(%s), Err(%s) => Err(%s) })" % (recv, p1, b1, p2, b2) + text[mm.end():]
+        k += 1
+    if (count is None and k == 0) or (count is not None and count >= 0 and k != count):
+        raise Undecided("R10r: %d map/map_err chains, expected %s" % (k, count))
+    return text, k
+
+
 def r10_poll_map_err(text, variant, count=1):
     """X.poll_ready(cx).map_err(V) -> three-arm match on Poll (R10, Poll form)."""
     pat = r"((?:[A-Za-z_]\w*)(?:\s*\.\s*[A-Za-z_]\w*)*\s*\.\s*poll_ready\(\s*cx\s*\))\s*\.\s*map_err\(\s*%s\s*\)" % re.escape(variant)
@@ -484,6 +506,8 @@ def apply_rules(text, rules, log, fn):
             text, k = r10_map_err(text, *r[1:])
         elif kind == "R7":
             text, k = r7_atomics(text, *r[1:])
+        elif kind == "R10r":
+            text, k = r10_result_map_chain(text, *r[1:])
         elif kind == "R10p":
             text, k = r10_poll_map_err(text, *r[1:])
         elif kind == "R18":
